@@ -130,7 +130,7 @@ def c18_check(prop, tier, seed, replay):
             raise HarnessError("script traces incomplete")
         log("[C18] %d histories (%d calls, %d with monitor) replayed and validated; %d rejected" % (len(cases), steps, withmon, len(viol_scripts)))
         rc = 0
-        os.makedirs(os.path.join(core.VERIF, "replays"), exist_ok=True)
+        os.makedirs(os.path.join(core.OUT, "replays"), exist_ok=True)
         shown = 0
         for cid, vs in sorted(viol_scripts.items()):
             c = cases[cid - 1]
@@ -146,7 +146,7 @@ def c18_check(prop, tier, seed, replay):
             shown += 1
             if shown > 10:
                 continue
-            path = os.path.join(core.VERIF, "replays", "C18-%s.json" % core.sig_hash(sig))
+            path = os.path.join(core.OUT, "replays", "C18-%s.json" % core.sig_hash(sig))
             with open(path, "w") as fh:
                 json.dump({"property": "C18", "kind": "history", "script": {"script": c["script"]}, "rejected_steps": [v[2] for v in vs]}, fh, indent=1)
             print("VIOLATION property=C18 replay=%s" % path)
@@ -316,11 +316,11 @@ def c15_check(prop, tier, seed, replay):
                 (bi, len(part), g, procs, stats["judged"], stats["viol"]))
             res_all = r_ if res_all is None else _merge_same_ids(res_all, r_)
         rc = 0
-        os.makedirs(os.path.join(core.VERIF, "replays"), exist_ok=True)
+        os.makedirs(os.path.join(core.OUT, "replays"), exist_ok=True)
         for rc_ in races:
             rc = 1
             sig = core.sig_hash(rc_["report"][:400])
-            path = os.path.join(core.VERIF, "replays", "C15-race-%s.json" % sig)
+            path = os.path.join(core.OUT, "replays", "C15-race-%s.json" % sig)
             with open(path, "w") as fh:
                 json.dump({"property": "C15", "clause": "NoRace", "g": rc_["g"], "procs": rc_["procs"], "report": rc_["report"],
                            "cases": rc_["cases"]}, fh, indent=1)
